@@ -160,14 +160,7 @@ func (g *gen) run() {
 			}
 			g.do(Op{K: "redel", M: m, A: a, V: v})
 		case k < 32:
-			a := g.someRecorded(m)
-			b := 100 + r.Intn(nBridgers)
-			if r.Chance(15) {
-				b = r.Intn(nOracles) // another oracle's account as bridger
-			}
-			if b != a {
-				g.do(Op{K: "edit", M: m, A: a, B: b})
-			}
+			g.editOp(m)
 		case k < 39:
 			g.do(Op{K: "withdraw", M: m, A: g.someRecorded(m)})
 		case k < 52:
@@ -220,6 +213,71 @@ func (g *gen) run() {
 				}
 			}
 		}
+	}
+	g.block(1)
+}
+
+// editOp: MsgEditBridger by a (preferably online) oracle; the new bridger is, with real probability each, the
+// bridger of an OFFLINE oracle (slashed, or removed by governance and not yet withdrawn), of an online oracle, its
+// own, another oracle's ADDRESS, an account that is nobody's bridger, or any account.  An accepted edit that took
+// over somebody's bridger is followed by that oracle re-joining or withdrawing, so index damage shows in the store.
+func (g *gen) editOp(m int) {
+	r := g.r
+	v := g.view(m)
+	a := g.someRecorded(m)
+	var online, offline []oracleRec
+	for _, rec := range v.Recs {
+		if rec.Online {
+			online = append(online, rec)
+		} else {
+			offline = append(offline, rec)
+		}
+	}
+	if len(online) > 0 && r.Chance(85) {
+		a = online[r.Intn(len(online))].A
+	}
+	b := 100 + r.Intn(nBridgers)
+	victim := -1
+	switch k := r.Intn(100); {
+	case k < 30 && len(offline) > 0:
+		o := offline[r.Intn(len(offline))]
+		b, victim = o.B, o.A
+	case k < 45 && len(online) > 0:
+		o := online[r.Intn(len(online))]
+		b, victim = o.B, o.A
+	case k < 52:
+		if rec := v.rec(a); rec != nil {
+			b = rec.B
+		}
+	case k < 64:
+		b = r.Intn(nOracles) // an oracle ADDRESS as bridger
+	case k < 82:
+		for _, c := range r.Perm(nBridgers) { // an account that is nobody's bridger
+			free := true
+			for _, p := range v.ByB {
+				if p[0] == 100+c {
+					free = false
+				}
+			}
+			if free {
+				b = 100 + c
+				break
+			}
+		}
+	}
+	if b < 0 || b == a {
+		return
+	}
+	if g.do(Op{K: "edit", M: m, A: a, B: b}) != 0 || victim < 0 || victim == a {
+		return
+	}
+	// the bridger of another oracle was taken over (cannot happen on a correct tree): let that oracle come back or leave
+	g.run_.rep.Count("edit-took-over-a-bound-bridger")
+	if r.Chance(50) {
+		g.do(Op{K: "gov", M: m, L: append(append([]int{}, g.view(m).Prop...), victim)})
+		g.do(Op{K: "add", M: m, A: victim, Amt: fx(10000)})
+	} else {
+		g.do(Op{K: "unbond", M: m, A: victim})
 	}
 	g.block(1)
 }
